@@ -3,6 +3,7 @@ package props
 import (
 	"fmt"
 	"net/http"
+	"os"
 	"strings"
 
 	"connectrpc.com/vanguard"
@@ -165,6 +166,9 @@ func c03Behaviours() []c03Behaviour {
 			c.RawReply = func(*world.Backend, *http.Request) *world.Reply { return nil }
 		}},
 		c03Behaviour{"response-over-limit", func(c *mxCall, _ string) { c.RespMsgs[0] = MkMsg(`{"extraText":"` + strings.Repeat("z", 3000) + `"}`) }},
+		c03Behaviour{"response-over-limit-uncompressed", func(c *mxCall, _ string) {
+			c.RespMsgs[0], c.RespComp = MkMsg(`{"extraText":"`+strings.Repeat("z", 3000)+`"}`), ""
+		}},
 	)
 	return bs
 }
@@ -270,7 +274,7 @@ func init() {
 		di := c.Choose("request-defect", len(c03ReqDefects))
 		c.Attr("request-defect", c03ReqDefects[di].name)
 		limit := uint32(0)
-		if behaviours[bi].name == "response-over-limit" || c03ReqDefects[di].name == "request-over-limit" {
+		if strings.HasPrefix(behaviours[bi].name, "response-over-limit") || c03ReqDefects[di].name == "request-over-limit" {
 			limit = 2000
 		}
 		if c03ReqDefects[di].name == "request-over-limit" {
@@ -305,6 +309,9 @@ func init() {
 		}
 		cr := obs.CResp
 		rec := obs.Ex.Rec
+		if c.Replay && os.Getenv("VERIF_DEBUG") != "" {
+			fmt.Fprintf(os.Stderr, "DBG client: %s\n raw=%x\n", short(semClient(b.Client.form, obs.Ex, world.MsgDesc())), truncBytes(rec.BodyBytes.Bytes(), 200))
+		}
 		desc := func() string {
 			return fmt.Sprintf("%s behaviour=%s request-defect=%s\n backend: %s\n client: %s\n raw body: %x", b.key, behaviours[bi].name, c03ReqDefects[di].name, short(semBackend(obs.Backend, world.MsgDesc())), short(semClient(b.Client.form, obs.Ex, world.MsgDesc())), truncBytes(rec.BodyBytes.Bytes(), 120))
 		}
